@@ -32,6 +32,7 @@ repository tests -- sub-check `oracle_selftest_captures`):
 from mc import env  # noqa: F401  (must be first)
 from mc import par, spaces
 from mc.report import Report, Acc, exc_sig
+from mc.hist import scramble
 
 import datetime
 import itertools
@@ -862,6 +863,12 @@ def check_bare(kind, fv):
     except Exception as e:
         probs.append(("exception_len:" + exc_sig(e), repr(e)))
     try:
+        # history probe: a first parse whose result the caller then rewrites in place must not influence the next parse of the
+        # same bytes (parse results cached / shared by the library)
+        try:
+            scramble(HDAP.from_bytes(b))
+        except Exception:  # noqa: BLE001
+            pass
         q = HDAP.from_bytes(b)
         calls += 1
     except Exception as e:
@@ -919,6 +926,12 @@ def check_hrnp(kind, fv, p, inner, hv):
     if n != len(hb):
         probs.append(("hrnp_len_differs_from_bytes_produced", f"{n} vs {len(hb)}"))
     try:
+        # history probe: a first parse whose result the caller then rewrites in place must not influence the next parse of the
+        # same bytes (parse results cached / shared by the library)
+        try:
+            scramble(HRNP.from_bytes(hb))
+        except Exception:  # noqa: BLE001
+            pass
         h2 = HRNP.from_bytes(hb)
         calls += 1
     except Exception as e:
@@ -976,6 +989,12 @@ def check_hstrp(kind, fv, p, inner, sv):
     except Exception as e:
         probs.append(("hstrp_exception_len:" + exc_sig(e), repr(e)))
     try:
+        # history probe: a first parse whose result the caller then rewrites in place must not influence the next parse of the
+        # same bytes (parse results cached / shared by the library)
+        try:
+            scramble(HSTRP.from_bytes(sb))
+        except Exception:  # noqa: BLE001
+            pass
         s2 = HSTRP.from_bytes(sb)
         calls += 1
     except Exception as e:
